@@ -75,7 +75,10 @@ def plan(tier, seed):
                 dict(space="k3", lexmap="M1", strategies=["default"],
                      alpha="abx", nmax=4, win=(seed, 4)),
                 dict(space="k3", lexmap="M3", strategies=["default"],
-                     alpha="abx", nmax=4, win=(seed, 4))]
+                     alpha="abx", nmax=4, win=(seed, 4)),
+                dict(space="k3", lexmap="M0",
+                     strategies=["default", "skip-one"],
+                     alpha="abx ", nmax=4, win=(seed, 8), layout_rule=True)]
     return [dict(space="k3", lexmap="M0", strategies=["default"],
                  alpha="abx ", nmax=5),
             dict(space="k3", lexmap="M0",
@@ -86,7 +89,9 @@ def plan(tier, seed):
             dict(space="k3", lexmap="M3", strategies=STRATEGIES, alpha="abx",
                  nmax=4),
             dict(space="k4only", lexmap="M0", strategies=["default"],
-                 alpha="abx ", nmax=4, win=(0, 4))]
+                 alpha="abx ", nmax=4, win=(0, 4)),
+            dict(space="k3", lexmap="M0", strategies=STRATEGIES,
+                 alpha="abx ", nmax=4, layout_rule=True)]
 
 
 def units(tier, seed):
@@ -166,20 +171,33 @@ def run_unit(u):
         gk = spaces.gkey(prods, nts)
         ordered = spaces.ordered_prods(prods, nts)
         text = spaces.render_grammar(prods, nts, lm)
+        pkw = {"ws": WS}
+        if u.get("layout_rule"):
+            # the same layout given by a LAYOUT rule: the sub-parser is run
+            # from the position recovery resumes at
+            rules, terms = "LAYOUT: WSL | EMPTY;\n", "WSL: /[ \\n]+/;\n"
+            if "terminals" in text:
+                head, _, tail = text.partition("terminals\n")
+                text = head + rules + "terminals\n" + tail + terms
+            else:
+                text = text + rules + "terminals\n" + terms
+            pkw = {}
         used = {x for _, r in ordered for x in r if x in lexmap}
         matchers = Matchers({t: lexmap[t] for t in used})
         ref = CharRef(ordered, nts[0], lexmap, ws=WS)
         for sname in u["strategies"]:
             strat = strategy(sname)
             for kind in ("lr", "glr"):
-                cfg = f"{lm}/{sname}/{kind}"
+                cfg = f"{lm}/{sname}/{kind}" + (
+                    "/layout-rule" if u.get("layout_rule") else "")
                 try:
                     kw = {"build_tree": True} if kind == "lr" else {}
+                    kw.update(pkw)
                     p = build(kind, grammar_from_string(text), mon,
-                              tag=(gi, sname, kind), ws=WS,
+                              tag=(gi, sname, kind),
                               error_recovery=strat, **kw)
                     plain = build(kind, grammar_from_string(text), mon,
-                                  tag=(gi, sname, kind, "p"), ws=WS, **kw)
+                                  tag=(gi, sname, kind, "p"), **kw)
                 except (Exception, BudgetExceeded):    # noqa: BLE001
                     continue
                 for s in inputs:
